@@ -247,6 +247,7 @@ def run(chk):
     chk.rule("R6", "compile_col_expr of each back end handles every expression class or refuses with a documented error")
     chk.rule("R7", "SqlImpl.__new__ maps every dialect to an existing SqlImpl subclass that declares backend_name")
     chk.rule("R8", "no operator is registered twice in one store for the same signature (later silently wins / assert)")
+    chk.rule("R12", "end-to-end simulation: every verb sequence up to the bound that the verbs accept compiles (no AssertionError / KeyError / TypeError inside SqlImpl.build_select)")
     chk.rule("R9", "optional slots of AST nodes (`X | None`) are dereferenced / passed to non-optional parameters only under an `is not None` test")
     chk.rule("R10", "SQL implementations that use a Const parameter as a Python value (autoescape pattern, Python-level test, int()) are only reached with Python values")
     chk.rule("R11", "the expression dispatchers compile every argument of a function call (a zip with a per-overload parameter list must use the matched, per-argument signature)")
@@ -292,6 +293,10 @@ def run(chk):
         )  # fmt: skip
 
     # ---- R3 ----------------------------------------------------------------
+    from .. import pipesim as _ps
+
+    _ps.report(chk, m, "R12", ['compile-error'], depth_quick=2, depth_thorough=3, floor=100)
+
     dk = dispatcher_kwargs(chk, m)
     chk.extra_cov["dispatcher_keywords"] = {k: {a: sorted(b) if isinstance(b, set) else b for a, b in v.items()} for k, v in dk.items()}
     for r in regs:
